@@ -177,7 +177,7 @@ func C04(r *vf.Run) {
 		if !r.Phase(m.name) {
 			continue
 		}
-		vf.Parallel(runtime.NumCPU(), 256, func(w, bank int) {
+		r.Parallel(runtime.NumCPU(), 256, func(w, bank int) {
 			cells := map[string]int64{}
 			for off := uint32(0); off < 0x10000; off++ {
 				a := uint32(bank)<<16 | off
@@ -266,7 +266,7 @@ func C05(r *vf.Run) {
 				panic(fmt.Sprintf("%s: table does not cover bank %02x page %d", m.name, i/8, i%8))
 			}
 		}
-		vf.Parallel(runtime.NumCPU(), 256, func(w, bank int) {
+		r.Parallel(runtime.NumCPU(), 256, func(w, bank int) {
 			cells := map[string]int64{}
 			for off := uint32(0); off < 0x10000; off++ {
 				a := uint32(bank)<<16 | off
